@@ -48,7 +48,9 @@ pub fn vz_ge(a: &Zoned, b: &Zoned) -> (r: bool) ensures r == (TS(*a) >= TS(*b)),
 
 // the two fields of SnapshotFile the retention kernel reads
 pub enum DeleteOption { NotSet, Never, After(Zoned) }
-pub struct SnapshotFile { pub time: Zoned, pub delete: DeleteOption }
+pub struct SnapshotFile { pub time: Zoned, pub delete: DeleteOption, pub tree: TreeIdR }
+#[derive(Clone, Copy, PartialEq, Eq, Structural)]
+pub struct TreeIdR(pub u64);
 
 // ---- "same period" as the property states it (calendar periods; ISO weeks for the weekly rule) ----
 pub open spec fn same_year(a: Zoned, b: Zoned) -> bool { Y(a) == Y(b) }
